@@ -1,17 +1,31 @@
 #!/usr/bin/env python3
+"""Build the framework offline: the native self-test of the spec, then a warm Kani build
+(kani-compiler output) of the modules each property's quick check needs."""
 import os, subprocess, sys
 from pathlib import Path
 VERIF = Path(__file__).resolve().parent.parent
 sys.path.insert(0, str(VERIF / "tools"))
-import check
+import check, registry
 check.CACHE.mkdir(exist_ok=True)
 check.prepare_contracts()
 rc = 0
-for feats in ["", "checks"]:
-    cmd = check.kani_base(feats) + ["--only-codegen"]
-    p = subprocess.run(cmd, cwd=check.CONTRACTS, env=check.KANI_ENV, stdout=subprocess.PIPE, stderr=subprocess.STDOUT, text=True)
-    print(f"kani codegen [{feats or 'default'}]: rc={p.returncode}")
-    if p.returncode != 0:
-        print(p.stdout[-3000:])
-        rc = 1
+env = dict(os.environ, CARGO_TARGET_DIR=str(check.CACHE / "native"), CARGO_NET_OFFLINE="true", RUSTFLAGS="--cfg dsi_bitstream_verif")
+p = subprocess.run(["cargo", "test", "--offline", "--lib"], cwd=check.CONTRACTS, env=env, stdout=subprocess.PIPE, stderr=subprocess.STDOUT, text=True)
+ok = "test result: ok" in p.stdout
+print("spec self-test:", "ok" if ok else "FAILED")
+if not ok:
+    print(p.stdout[-3000:])
+    rc = 1
+if "--no-warm" not in sys.argv:
+    for prop in registry.PROPERTIES:
+        obls = [o for o in registry.for_property(prop, "quick") if o.engine == "kani"]
+        for feats in sorted({o.features for o in obls}):
+            grp = [o for o in obls if o.features == feats]
+            check.set_build(prop, [o.target for o in grp] + [o.confirm for o in grp])
+            cmd = check.kani_base(feats) + ["--only-codegen", "--exact", "--harness", grp[0].target]
+            p = subprocess.run(cmd, cwd=check.CONTRACTS, env=check.KANI_ENV, stdout=subprocess.PIPE, stderr=subprocess.STDOUT, text=True)
+            print(f"kani build {prop} [{feats or 'default'}] modules={check.MODULE_FEATURES}: rc={p.returncode}", flush=True)
+            if p.returncode != 0:
+                print(p.stdout[-2000:])
+                rc = 1
 sys.exit(rc)
